@@ -462,7 +462,7 @@ fn holder_thread(map: &Map, cfg: &RoundCfg, tid: usize, seed: u64, bar: &Barrier
                     match rng.below(10) {
                         9 => {
                             // a clone taken while writers keep changing (and growing) the source
-                            if rng.chance(1, 6) {
+                            if rng.chance(1, 6) && std::env::var_os("FV_NO_HOLDER_CLONE").is_none() {
                                 let c = map.clone();
                                 let cg = c.guard();
                                 for (kk, v) in c.iter(&cg).take(8) {
